@@ -3,7 +3,13 @@ use crate::message::Message;
 use crate::peer::CallContext;
 use serde_json::{Map, Value, json};
 use std::borrow::Cow;
+#[cfg(repe_verif)]
+use crate::verif_seam::collections::HashMap;
+#[cfg(repe_verif)]
+use crate::verif_seam::sync::{Arc, RwLock};
+#[cfg(not(repe_verif))]
 use std::collections::HashMap;
+#[cfg(not(repe_verif))]
 use std::sync::{Arc, RwLock};
 
 type RegistryFunction = Arc<dyn RegistryCallable>;
@@ -332,6 +338,23 @@ impl Registry {
         }
     }
 
+    #[cfg(repe_verif)]
+    fn read_state(&self) -> crate::verif_seam::sync::RwLockReadGuard<'_, RegistryState> {
+        match self.state.read() {
+            Ok(guard) => guard,
+            Err(poisoned) => poisoned.into_inner(),
+        }
+    }
+
+    #[cfg(repe_verif)]
+    fn write_state(&self) -> crate::verif_seam::sync::RwLockWriteGuard<'_, RegistryState> {
+        match self.state.write() {
+            Ok(guard) => guard,
+            Err(poisoned) => poisoned.into_inner(),
+        }
+    }
+
+    #[cfg(not(repe_verif))]
     fn read_state(&self) -> std::sync::RwLockReadGuard<'_, RegistryState> {
         match self.state.read() {
             Ok(guard) => guard,
@@ -339,6 +362,7 @@ impl Registry {
         }
     }
 
+    #[cfg(not(repe_verif))]
     fn write_state(&self) -> std::sync::RwLockWriteGuard<'_, RegistryState> {
         match self.state.write() {
             Ok(guard) => guard,
